@@ -143,10 +143,19 @@ class Session:
 
 def make_state(typ, nv, nh, na):
     if typ == "positive":
-        return PositiveWaveFunction(nv, nh, gpu=False)
-    if typ == "complex":
-        return ComplexWaveFunction(nv, nh, gpu=False)
-    return DensityMatrix(nv, nh, na, gpu=False)
+        st = PositiveWaveFunction(nv, nh, gpu=False)
+    elif typ == "complex":
+        st = ComplexWaveFunction(nv, nh, gpu=False)
+    else:
+        st = DensityMatrix(nv, nh, na, gpu=False)
+    # "construct" = build and set parameters: EVERY parameter (all biases included, also the ones the
+    # library itself never moves) gets a non-zero value drawn from the seeded torch generator, so that a
+    # read-only operation that resets or rescales any of them is visible in the parameter tokens
+    with torch.no_grad():
+        for net in st.networks:
+            for p in getattr(st, net).parameters():
+                p.add_(torch.randn_like(p) * 0.5)
+    return st
 
 
 class Ctx:
